@@ -2,11 +2,12 @@
 // usage: h_posit exh <nbits> <es>          every operand pair, every operator
 //        h_posit rnd <nbits> <es> <count>  structured random pairs (seed: VERIF_SEED)
 #include <universal/number/posit/posit.hpp>
+#include <cmath>
 #include "proto.hpp"
 
 using namespace sw::universal;
 
-static bool g_arith = true, g_order = true;
+static bool g_arith = true, g_order = true, g_conv = false, g_from = true, g_to = true;
 
 template<unsigned nbits, unsigned es>
 struct Run {
@@ -39,7 +40,116 @@ struct Run {
 		P pd = pa; --pd;
 		std::printf("posit %u %u dec %llx => %llx\n", nbits, es, (unsigned long long)a, (unsigned long long)enc(pd));
 	}
+
+	// ---- conversions (C03 / C04) ------------------------------------------------------------
+	static void ld_parts(long double x, unsigned& se, uint64_t& mant) {
+		unsigned char b[16] = {0}; std::memcpy(b, &x, 10);
+		std::memcpy(&mant, b, 8); se = (unsigned)b[8] | ((unsigned)b[9] << 8);
+	}
+	static long double ld_make(unsigned se, uint64_t mant) {
+		unsigned char b[16] = {0}; std::memcpy(b, &mant, 8); b[8] = se & 0xff; b[9] = (se >> 8) & 0xff;
+		long double x; std::memcpy(&x, b, sizeof x); return x;
+	}
+	static void from_f64(double d) { if (!g_from) return; P p; p = d; std::printf("posit %u %u fromf64 %llx => %llx\n", nbits, es, (unsigned long long)uv::double2bits(d), (unsigned long long)enc(p)); }
+	static void from_f32(float f) { if (!g_from) return; P p; p = f; std::printf("posit %u %u fromf32 %x => %llx\n", nbits, es, uv::float2bits(f), (unsigned long long)enc(p)); }
+	static void from_ld(long double x) {
+		if (!g_from) return;
+		unsigned se; uint64_t m; ld_parts(x, se, m);
+		if ((se & 0x7fff) != 0 && !(m >> 63)) return;        // unnormal patterns are not valid x87 values
+		P p; p = x; std::printf("posit %u %u fromld %x %llx => %llx\n", nbits, es, se, (unsigned long long)m, (unsigned long long)enc(p));
+	}
+	static void from_int(uint64_t w) {
+		if (!g_from) return;
+		unsigned long long W = w;
+		{ P p; p = (signed char)W;        std::printf("posit %u %u fromi i8 %llx => %llx\n", nbits, es, W, (unsigned long long)enc(p)); }
+		{ P p; p = (short)W;              std::printf("posit %u %u fromi i16 %llx => %llx\n", nbits, es, W, (unsigned long long)enc(p)); }
+		{ P p; p = (int)W;                std::printf("posit %u %u fromi i32 %llx => %llx\n", nbits, es, W, (unsigned long long)enc(p)); }
+		if (W != 0x8000000000000000ull) {  // -LLONG_MIN is undefined behaviour inside value::operator=(long long): see C20
+		{ P p; p = (long)W;               std::printf("posit %u %u fromi l64 %llx => %llx\n", nbits, es, W, (unsigned long long)enc(p)); }
+		{ P p; p = (long long)W;          std::printf("posit %u %u fromi i64 %llx => %llx\n", nbits, es, W, (unsigned long long)enc(p)); }
+		{ P p; p = (unsigned long)W;      std::printf("posit %u %u fromi ul64 %llx => %llx\n", nbits, es, W, (unsigned long long)enc(p)); }
+		}
+		{ P p; p = (unsigned short)W;     std::printf("posit %u %u fromi u16 %llx => %llx\n", nbits, es, W, (unsigned long long)enc(p)); }
+		{ P p; p = (unsigned int)W;       std::printf("posit %u %u fromi u32 %llx => %llx\n", nbits, es, W, (unsigned long long)enc(p)); }
+		{ P p; p = (unsigned long long)W; std::printf("posit %u %u fromi u64 %llx => %llx\n", nbits, es, W, (unsigned long long)enc(p)); }
+	}
+	static constexpr unsigned fbits_ = (es + 2 >= nbits ? 0 : nbits - 3 - es);
+	static constexpr long maxscale_ = long(nbits - 2) * (1l << es);
+	static void to_native(uint64_t a) {
+		if (!g_to) return;
+		P pa = mk(a);
+		if constexpr (fbits_ <= 52 && maxscale_ <= 1022) {
+			double d = double(pa); P back; back = d;
+			std::printf("posit %u %u todbl %llx => %llx %llx\n", nbits, es, (unsigned long long)a, (unsigned long long)uv::double2bits(d), (unsigned long long)enc(back));
+		}
+		if constexpr (fbits_ <= 23 && maxscale_ <= 126) {
+			float f = float(pa); P back; back = f;
+			std::printf("posit %u %u tof32 %llx => %x %llx\n", nbits, es, (unsigned long long)a, uv::float2bits(f), (unsigned long long)enc(back));
+		}
+		if constexpr (fbits_ <= 63 && maxscale_ <= 16382) {
+			long double x = (long double)pa; unsigned se; uint64_t m; ld_parts(x, se, m); P back; back = x;
+			std::printf("posit %u %u told %llx => %x %llx %llx\n", nbits, es, (unsigned long long)a, se, (unsigned long long)m, (unsigned long long)enc(back));
+		}
+		if (!pa.isnar()) {
+			long double v = (long double)pa;   // only to decide whether the cast below is defined behaviour
+			if (v > -2147483648.0L && v < 2147483648.0L) std::printf("posit %u %u toi i32 %llx => %llx\n", nbits, es, (unsigned long long)a, (unsigned long long)(long long)int(pa));
+			if (v > -9.0e18L && v < 9.0e18L) std::printf("posit %u %u toi i64 %llx => %llx\n", nbits, es, (unsigned long long)a, (unsigned long long)(long long)(pa));
+			if (v > -1.0L && v < 4294967296.0L) std::printf("posit %u %u toi u32 %llx => %llx\n", nbits, es, (unsigned long long)a, (unsigned long long)(unsigned int)(pa));
+			if (v > -1.0L && v < 1.8e19L) std::printf("posit %u %u toi u64 %llx => %llx\n", nbits, es, (unsigned long long)a, (unsigned long long)(unsigned long long)(pa));
+		}
+	}
+	// sources generated FROM the target lattice: the value itself, the (n+1)-bit midpoint above it, +-1 source ulp around both
+	static void around(long double v) {
+		double d = (double)v; float f = (float)v;
+		for (int k = -1; k <= 1; ++k) {
+			double dd = d; if (k) dd = std::nextafter(d, k > 0 ? HUGE_VAL : -HUGE_VAL); from_f64(dd);
+			float ff = f; if (k) ff = std::nextafterf(f, k > 0 ? HUGE_VALF : -HUGE_VALF); from_f32(ff);
+			long double ll = v; if (k) ll = std::nextafterl(v, k > 0 ? HUGE_VALL : -HUGE_VALL); from_ld(ll);
+		}
+		if (v > -9.2e18L && v < 9.2e18L) {
+			long long i = (long long)v;
+			for (long long k = -1; k <= 2; ++k) from_int((uint64_t)(i + k));
+		} else if (v > 0 && v < 1.8e19L) {
+			unsigned long long u = (unsigned long long)v;
+			for (long long k = -1; k <= 1; ++k) from_int((uint64_t)(u + (unsigned long long)k));
+		}
+	}
+	static void conv_target(uint64_t y) {
+		to_native(y);
+		P py = mk(y);
+		if (py.isnar()) return;
+		around((long double)py);
+		if constexpr (nbits < 64) {
+			posit<nbits + 1, es> mid; mid.setbits(((y << 1) | 1) & uv::mask(nbits + 1));
+			if (!mid.isnar()) around((long double)mid);
+		}
+	}
+	static void conv_fixed(uv::Rng& g, unsigned randoms) {
+		const uint64_t specials[] = { 0ull, 1ull, 0x7fffffffull, 0x80000000ull, 0xffffffffull, 0x100000000ull, (1ull << 53) - 1, 1ull << 53, (1ull << 53) + 1,
+			0x7fffffffffffffffull, 0x8000000000000000ull, 0x8000000000000001ull, 0xffffffffffffffffull, 0xfffffffffffffffeull, (1ull << 63) + (1ull << 10),
+			0x7ffffffffffffc00ull, 0x7ffffffffffffdffull, 0x7ffffffffffffe00ull, 0xfffffffffffff800ull, 0xfffffffffffffbffull, 0xfffffffffffffc00ull };
+		for (uint64_t w : specials) { from_int(w); from_int(~w + 1); }
+		const uint64_t dspecial[] = { 0x0ull, 0x8000000000000000ull, 0x1ull, 0x8000000000000001ull, 0x000fffffffffffffull, 0x0010000000000000ull, 0x7fefffffffffffffull,
+			0xffefffffffffffffull, 0x7ff0000000000000ull, 0xfff0000000000000ull, 0x7ff8000000000000ull, 0x7ff0000000000001ull, 0xfff8000000000001ull };
+		for (uint64_t b : dspecial) from_f64(uv::bits2double(b));
+		const uint32_t fspecial[] = { 0u, 0x80000000u, 1u, 0x80000001u, 0x007fffffu, 0x00800000u, 0x7f7fffffu, 0xff7fffffu, 0x7f800000u, 0xff800000u, 0x7fc00000u, 0x7f800001u };
+		for (uint32_t b : fspecial) from_f32(uv::bits2float(b));
+		for (unsigned i = 0; i < randoms; ++i) {
+			from_f64(uv::bits2double(g.next()));
+			from_f32(uv::bits2float((uint32_t)g.next()));
+			uint64_t w = g.next() >> g.below(64); from_int(g.coin() ? w : (~w + 1));
+			// doubles inside the posit's dynamic range
+			int e = (int)g.below(2 * (unsigned)maxscale_ + 9) - (int)maxscale_ - 4;
+			if (e > -1070 && e < 1020) from_f64(std::ldexp(1.0 + (double)(g.next() >> 11) * 0x1p-53, e) * (g.coin() ? 1 : -1));
+		}
+	}
+	static void conversions(uint64_t count, bool all) {
+		uv::Rng g(uv::seed_from_env() * 2654435761ull + nbits * 131ull + es);
+		if (all) { for (uint64_t y = 0; y < (1ull << (nbits < 63 ? nbits : 1)); ++y) conv_target(y); conv_fixed(g, 2000); }
+		else { conv_fixed(g, (unsigned)(count / 8)); for (uint64_t i = 0; i < count * (g_from ? 1 : 20); ++i) conv_target(operand(g)); }
+	}
 	static void exhaustive() {
+		if (g_conv) { conversions(0, true); return; }
 		const uint64_t N = 1ull << nbits;
 		for (uint64_t a = 0; a < N; ++a) {
 			unary(a);
@@ -80,6 +190,7 @@ struct Run {
 		}
 	}
 	static void random(uint64_t count) {
+		if (g_conv) { conversions(count, false); return; }
 		uv::Rng g(uv::seed_from_env() * 1000003ull + nbits * 131ull + es);
 		const uint64_t M = uv::mask(nbits);
 		for (uint64_t i = 0; i < count; ++i) {
@@ -115,6 +226,8 @@ int main(int argc, char** argv) {
 	std::string ops = argc > 5 ? argv[5] : "all";
 	g_arith = ops == "all" || ops == "arith";
 	g_order = ops == "all" || ops == "order";
+	g_conv = ops == "conv" || ops == "from" || ops == "to";
+	g_from = ops != "to"; g_to = ops != "from";
 #define X(N,E) if (n == N && e == E) { if (mode == "exh") Run<N,E>::exhaustive(); else Run<N,E>::random(count); return 0; }
 	CONFIGS(X)
 #undef X
